@@ -166,6 +166,19 @@ def _vlift(a):
     return _map1(_lift_elem, np.asarray(a, dtype=object))
 
 
+class ObjArray(np.ndarray):
+    """Object array of symbolic scalars: astype(float) is the identity (values stay terms)."""
+
+    def astype(self, dtype, *a, **k):
+        try:
+            kind = np.dtype(dtype).kind
+        except TypeError:
+            kind = '?'
+        if kind == 'f':
+            return self
+        return np.asarray(self).astype(dtype, *a, **k)
+
+
 class Variable:
     __array_priority__ = 2000
 
@@ -273,7 +286,7 @@ class Variable:
     # ---------------------------------------------------------------- values
     @property
     def values(self):
-        return self._a
+        return self._a.view(ObjArray)
 
     @values.setter
     def values(self, v):
@@ -396,7 +409,7 @@ class Variable:
         if self._bins is not None:
             return self._bins.getitem(self, key)
         nd, sel, _ = self._slice(key)
-        out = self._new(self._a[sel], dims=nd, var=None if self._v is None else self._v[sel], buf=self._buf)
+        out = self._new(_as_arr(self._a[sel]), dims=nd, var=None if self._v is None else _as_arr(self._v[sel]), buf=self._buf)
         return out
 
     def __setitem__(self, key, val):
@@ -615,6 +628,14 @@ class _Fields:
     x = property(lambda s: s._get(0))
     y = property(lambda s: s._get(1))
     z = property(lambda s: s._get(2))
+
+
+def _as_arr(x):
+    if isinstance(x, np.ndarray):
+        return x
+    a = np.empty((), dtype=object)
+    a[()] = x
+    return a
 
 
 def _rnd_add(rnd, dt):
